@@ -58,7 +58,7 @@ STAGES = {
     "C15": [S("stall", "^TestC15Stall$"),
             S("outbound", "^TestC15$", quick=3000, thorough=150000, shards=(3, 16)),
             S("inbound", "^TestC15Inbound$", quick=1500, thorough=80000, shards=(3, 16))],
-    "C18": [S("regress", "^TestC18Regress$"),
+    "C18": [S("regress", "^TestC18Regress$|^TestC18ZeroRead$"),
             S("stream", "^TestC18$", quick=600, thorough=30000, shards=(4, 16)),
             S("deadlines", "^TestC18Deadlines$", quick=3000, thorough=100000, shards=(2, 16))],
     "C16": [S("regress", "^TestC16Regress$"),
